@@ -90,6 +90,32 @@ pub fn next_program(rng: &mut Rng, k: usize) -> (Program, SettingsSpec) {
     (p, s)
 }
 
+/// `i::Ids<T> { a: Vec<Box<Vec<T>>>, b: Vec<Vec<T>>, d: VecDeque<Box<u8>>, e: Vec<u8>, r: T }` (Model/Program1.v
+/// `id1_defs`) at `u16` and `u64`, the first also reached as `Box<Box<Ids<u16>>>` (its own entry): pairs of
+/// entries with equal content that scale-info keeps apart (the shapes of `corpus::identity_programs`, which the
+/// derive tier validates), in a program whose instantiations are coincidence-free
+pub fn identity_cf1_program() -> Program {
+    let bx = |s: Src| Box::new(s);
+    let f = |n: &str, ty: Src| FieldDef { name: Some(n.into()), ty, compact_attr: false, docs: vec![], type_name: true };
+    let t = || Src::Param(0);
+    let fields = vec![
+        f("a", Src::Vec(bx(Src::BoxT(bx(Src::Vec(bx(t()))))))),
+        f("b", Src::Vec(bx(Src::Vec(bx(t()))))),
+        f("d", Src::VecDeque(bx(Src::BoxT(bx(Src::Prim("u8")))))),
+        f("e", Src::Vec(bx(Src::Prim("u8")))),
+        f("r", t()),
+    ];
+    let defs = vec![Def {
+        path: vec!["i".into(), "Ids".into()],
+        params: vec![("T".into(), false)],
+        body: Body::Struct(fields),
+        docs: vec![],
+    }];
+    let ids = |a: &'static str| Src::App(0, vec![Src::Prim(a)]);
+    let roots = vec![ids("u16"), ids("u64"), Src::BoxT(bx(Src::BoxT(bx(ids("u16")))))];
+    Program { defs, roots }
+}
+
 pub fn stream_rng(seed: u64) -> Rng {
     Rng::new(seed ^ 0xc05)
 }
@@ -114,6 +140,14 @@ pub fn generate(tier: &str, seed: u64, out: &Path, nshards: usize, replay: Optio
         // prop_source_roundtrip follows from corr_gen (C05_checker_verdict_from_correspondence)
         ("hyp_emission_theorem", "hyp_emission_theorem"),
         ("hyp_emission_theorem_nontrivial", "hyp_emission_theorem_nontrivial"),
+        ("corr_registry_of1", "corr_registry_of1"),
+        ("hyp_registry_of1", "hyp_registry_of1"),
+        ("hyp_labels_agree", "hyp_labels_agree"),
+        ("hyp_all_cf1", "hyp_all_cf1"),
+        ("hyp_cf1_only", "hyp_cf1_only"),
+        ("hyp_thm1_premises", "hyp_thm1_premises"),
+        ("hyp_thm1_on_duplicates", "hyp_thm1_on_duplicates"),
+        ("hyp_thm_premises", "hyp_thm_premises"),
     ];
     let mut shards = Shards::new(out, nshards, HEADER, "c05_case", &evals);
     let mut meta = Meta::new("C05");
@@ -133,13 +167,16 @@ pub fn generate(tier: &str, seed: u64, out: &Path, nshards: usize, replay: Optio
         spec.ops.extend(bit_order_subs(&reg));
         let o = observe_tg(&reg, &spec);
         let term = format!(
-            "(mk_c05 (mk_program {} {}) {} {} {})",
+            "(mk_c05 (mk_program {} {}) {} {} {} {})",
             clist(p.defs.iter().map(cdef)),
             clist(p.roots.iter().map(csrc)),
             clist(insts.iter().map(|(d, a)| format!("({}%nat, {})", d, clist(a.iter().map(csrc))))),
             // per id: the closed source type the entry stands for, in the normal form of the Coq
             // source model (`canon`); None = bit-order marker
             clist(labels.iter().map(|l| copt(l.as_ref().map(|x| csrc(&reggen::canon(x)))))),
+            // the same labels as written (the type the entry was first registered for): the Coq side puts
+            // them into the normal form of scale-info's real type identity (`ident1`, Model/Program1.v)
+            clist(labels.iter().map(|l| copt(l.as_ref().map(|x| csrc(x))))),
             coq_case(stream, &reg, &spec, &o, &None)
         );
         let generic = p.defs.iter().any(|d| d.params.iter().any(|(_, s)| !*s));
@@ -168,6 +205,9 @@ pub fn generate(tier: &str, seed: u64, out: &Path, nshards: usize, replay: Optio
     for (n, p) in crate::corpus::identity_programs() {
         push(&format!("identity:{n}"), &p, None, &mut shards, &mut meta);
     }
+    // coincidence-free instantiations in a registry WITH identity duplicates: `RegistryOf` fails, every
+    // hypothesis of `C05_skeleton_is_source1` holds (counted as `hyp_thm1_on_duplicates`)
+    push("identity:cf1", &identity_cf1_program(), None, &mut shards, &mut meta);
     let scale = if tier == "thorough" { 8 } else { 1 };
     for k in 0..(400 * scale) {
         let (p, s) = next_program(&mut rng, k);
